@@ -142,6 +142,11 @@ struct Interp {
   static uint32_t dense_cols_choice(uint32_t x) { static const uint32_t em[] = {31, 32, 33, 63, 64, 65, 96, 97, 1, 2, 7, 100, 127, 128, 129, 130}; return (x % 3 == 0) ? 1 + (x / 3) % 130 : em[(x / 3) % 16]; }
 
   // ---- solver
+  struct Kept { void* p; std::vector<uint8_t> want; };
+  std::vector<Kept> kept;   // solutions of earlier solves of this case that the caller still holds
+  void check_kept(const char* when) {
+    for (auto& kq : kept) if (!v.failed && memcmp(kq.p, kq.want.data(), kq.want.size()) != 0) fail("SOLVER/earlier_solution_modified", std::string("a solution returned by an earlier solve was modified ") + when);
+  }
   void solve_case(const MOp& op) {
     uint64_t x = op.seed;
     uint32_t q = 1 + op.a % 70, p = q + op.b % 11, L = 1 + op.c % 40;
@@ -176,7 +181,9 @@ struct Interp {
       for (uint32_t c = 0; c < q; c++) if (A[i][c]) for (uint32_t k = 0; k < L; k++) b[k] ^= xs[c][k];
       ct[i] = b; mine.insert(b);
     }
-    int st = shp_solve(d, ct.data(), vt.data(), L);
+    bool reuse = (op.d / 6) % 2 == 1, keep = (op.d / 12) % 2 == 1;
+    int st = reuse ? shp_solve_reuse(d, ct.data(), vt.data(), L) : shp_solve(d, ct.data(), vt.data(), L);
+    check_kept("by a later solve");
     if (full) {
       v.features |= FT_SOLVE_FULL; if (needs_swap) v.features |= FT_SOLVE_SWAP;
       if (st != 0) fail("SOLVER/full_rank_not_solved", "system " + std::to_string(p) + "x" + std::to_string(q) + " of full column rank: solver returned " + std::to_string(st));
@@ -193,6 +200,9 @@ struct Interp {
     for (void* ptr : ct) if (ptr) all.insert(ptr);
     for (void* ptr : vt) if (ptr) all.insert(ptr);
     for (void* ptr : mine) all.insert(ptr);
+    if (keep && full && st == 0 && !v.failed) {   // the caller keeps the solution symbols of this solve
+      for (uint32_t c = 0; c < q; c++) { kept.push_back(Kept{vt[c], xs[c]}); all.erase(vt[c]); }
+    }
     for (void* ptr : all) free(ptr);
     shp_dn_free(d);
     size_t left = at::count_tag(300);
@@ -394,6 +404,9 @@ struct Interp {
       if (v.failed) break;
     }
     for (int i = 0; i < NS; i++) { sp_free(i); dn_free(i); }
+    check_kept("by the time the case ended");
+    for (auto& kq : kept) free(kq.p);
+    kept.clear();
     if (at::live) at::hard_reset(); else at::reset_if_empty();
     return v;
   }
@@ -403,7 +416,11 @@ struct Interp {
 static Seq generate(const std::string& prop, Chooser& ch, bool thorough) {
   Seq s;
   bool sparse = prop == "C17";
-  if (!sparse && ch.coin(2, 5)) { MOp op; op.kind = X_SOLVE; op.a = ch.next(); op.b = ch.next(); op.c = ch.next(); op.d = ch.next(); op.seed = ch.seed64(); s.push_back(op); return s; }
+  if (!sparse && ch.coin(2, 5)) {
+    uint32_t ns = ch.pick<uint32_t>({1, 1, 2, 3});   // several solves in one case: the second may see state left by the first
+    for (uint32_t i = 0; i < ns; i++) { MOp op; op.kind = X_SOLVE; op.a = ch.next(); op.b = ch.next(); op.c = ch.next(); op.d = ch.next(); op.seed = ch.seed64(); s.push_back(op); }
+    return s;
+  }
   uint32_t n = ch.range(1, thorough ? 120 : 60);
   static const int sw[] = {S_ALLOC, S_INSERT, S_INSERT, S_INSERT, S_FIND, S_DELETE, S_DELETE, S_BULK, S_BULKDEL, S_CLEAR, S_COPY, S_COPYROWS, S_COPYCOLS, S_COPYROWS_OPT,
                            S_COPYCOLS_OPT, S_COPY_FILLED, S_TO_DENSE, S_FROM_DENSE, S_QUERY, S_FREE, S_INSERT, S_BULK};
@@ -430,7 +447,7 @@ static Verdict run_one(const std::string& prop, const Seq& s, bool count) {
     st.evaluations++;
     static const char* fn[] = {"delete_then_insert", "clear_then_insert", ">1024_entries", "copy_into_nonempty", "cols_not_multiple_of_32", "solve_full_rank", "solve_rank_deficient", "solve_needs_row_swap"};
     for (int b = 0; b < 8; b++) if (v.features & (1ull << b)) st.feature_counts[fn[b]]++;
-    st.classes[s.size() == 1 && s[0].kind == X_SOLVE ? "solver" : (prop == "C17" ? "sparse_sequence" : "dense_sequence")]++;
+    st.classes[!s.empty() && s[0].kind == X_SOLVE ? (s.size() == 1 ? "solver" : "solver_sequence") : (prop == "C17" ? "sparse_sequence" : "dense_sequence")]++;
     if (nontrivial(prop, v.features)) { st.nontrivial++; std::string t = seq_text(s); if (st.distinct.insert(hash_text(t)).second && st.samples.size() < 5 && st.distinct.size() % 211 == 1) st.samples.push_back(t.size() > 1500 ? t.substr(0, 1500) + "..." : t); }
   }
   return v;
@@ -521,7 +538,7 @@ int main(int argc, char** argv) {
   CurCase cur; if (!curp.empty()) cur.open(curp);
   st.rule = prop == "C17"
     ? "generated sequences (<= 60 operations, 120 thorough) over a pool of 4 sparse matrices (1..40 x 1..40, plus 1x2000 / 2000x1): allocate, insert (new / existing), find, delete, bulk insert (up to 1600 entries: crosses the 1024-entry block), bulk delete, clear, copy, copyrows, copycols, the _opt variants and copy_filled_matrix into fresh destinations, sparse->dense, dense->sparse, emptiness/weight queries, free; after every operation every live matrix is traversed by rows and by columns, links are checked and find is compared with the set model; non-trivial = delete->insert, clear->insert, > 1024 live entries, or copy into a non-empty destination; distinct = distinct operation sequence text"
-    : "generated sequences over a pool of 4 dense matrices (1..70 rows, column counts emphasising 31,32,33,63,64,65,96,97): set/get/flip, clear, fill, copy, copyrows, copycols (equal row counts), xor_rows, weights (row, column, emptiness, ignore_first at multiples of 32), free, compared cell by cell with a plain bit-matrix model after every operation; solver cases: p x q systems (q 1..70, p-q 0..10) of constructed rank (full: random row operations on [I;0]; deficient: dependent / zero column / duplicated row), random symbols of 1..40 bytes, rhs = A x; popcount helpers over all 16-bit patterns in every 16-bit position, structured words (all-ones, alternating, one bit clear) and random words; non-trivial = column count not a multiple of 32, or solver needing a row swap, or rank-deficient system; distinct = distinct sequence text";
+    : "generated sequences over a pool of 4 dense matrices (1..70 rows, column counts emphasising 31,32,33,63,64,65,96,97): set/get/flip, clear, fill, copy, copyrows, copycols (equal row counts), xor_rows, weights (row, column, emptiness, ignore_first at multiples of 32), free, compared cell by cell with a plain bit-matrix model after every operation; solver cases: p x q systems (q 1..70, p-q 0..10) of constructed rank (full: random row operations on [I;0]; deficient: dependent / zero column / duplicated row), random symbols of 1..40 bytes, rhs = A x, 1-3 solves per case on a fresh or on one reused control block, earlier solutions optionally retained and re-checked; popcount helpers over all 16-bit patterns in every 16-bit position, structured words (all-ones, alternating, one bit clear) and random words; non-trivial = column count not a multiple of 32, or solver needing a row swap, or rank-deficient system; distinct = distinct sequence text";
   Seq fseq;
   if (prop == "C18" && worker == 0) { popcounts(failed, fsig, fmsg, frp); st.classes["popcount"] += 1; }
   uint64_t shrink_execs = 0;
